@@ -619,7 +619,7 @@ func c11Check(x *core.Ctx, c *core.Case) {
 	nops, _ := strconv.Atoi(c.Get("ops"))
 	yield, _ := strconv.Atoi(c.Get("yield"))
 	r := core.NewRand(seed, 11)
-	items := tsys.Schema(r, &tsys.GenOpts{Descs: true, Extensions: true})
+	items := tsys.Schema(r, &tsys.GenOpts{Descs: true, Extensions: true, Hostile: seed%2 == 0}) // hostile: descriptions with control and non-ASCII characters, which the formatter escapes
 	if seed%4 == 1 {
 		// one type serves as query AND mutation root (the loader allows it): walks of different operation kinds meet on it
 		for _, it := range items {
